@@ -292,8 +292,10 @@ CLAIMED = {
              "simulated node, explore, cache.add / cache.delete) is proved to be an abstract step on some version that occurred, with "
              "the invariant 'every cache entry describes some version at its prefix' maintained (concrete_step), so whole concrete "
              "runs with stale cache entries find every stable key and meet nothing never stored (concrete_finds_stable, "
-             "concrete_sound). Modelled not proved: that a cached node object still resolves in the database (with pruning, a pruned "
-             "child raises MissingTraversalNode and the caller drops the entry) - tied by running real walks with the real cache "
+             "concrete_sound). A stale cached parent read over the CURRENT database (raw level: traverse_from over rlp-decoded nodes) "
+             "returns what the older version says or raises MissingTraversalNode naming the first absent child - never anything "
+             "else (stale_parent_truthful, from partial consistency of the database). Modelled not proved: the caller's reaction to "
+             "that exception (drop the entry, go from the root) - tied by running real walks with the real cache "
              "against the model, each whole step compared with cstep as one transition.",
         technique="Lean 4 proof (walk invariant over arbitrary schedules, well-founded measure) + correspondence check on real walks",
         design_ref="6/C09"),
